@@ -5,8 +5,10 @@ CONSTANTS NAcc = 1
           MaxDiffs = {1, 2}
           HistLimits = {0, 2}
           Policies = {"always", "never"}
-          MaxId = 4
+          Asyncs = {FALSE, TRUE}
+          MaxId = 3
 INVARIANTS TypeOK ViewIsRoot Aligned HistChain PersistedIsCanon RecoverableSound
 PROPERTIES RecoverRestores RecoverFailKeeps
 CONSTRAINT Bounded
+VIEW StateView
 CHECK_DEADLOCK FALSE
